@@ -488,6 +488,9 @@ fn wellformed(case: &BytesCase, obs: &mut Obs) -> PropResult {
 	if let Some(size) = crate::classfile::gen::add_big_attribute(&mut model, case.big) {
 		obs.label(if size > 65535 { "attribute_payload>65535" } else { "attribute_payload<=65535" });
 	}
+	if let Some(table) = crate::classfile::gen::inflate_table(&mut model, case.big) {
+		obs.label(format!("table_with_300_entries:{table}"));
+	}
 	let mut ch = case.ch.clone();
 	if case.strip_wide {
 		strip_wide_consts(&mut model);
@@ -834,6 +837,9 @@ fn cross_read(case: &BytesCase, obs: &mut Obs) -> PropResult {
 	let mut model = class_from_stream(&case.stream, 4, 30);
 	if let Some(size) = crate::classfile::gen::add_big_attribute(&mut model, case.big) {
 		obs.label(if size > 65535 { "attribute_payload>65535" } else { "attribute_payload<=65535" });
+	}
+	if let Some(table) = crate::classfile::gen::inflate_table(&mut model, case.big) {
+		obs.label(format!("table_with_300_entries:{table}"));
 	}
 	let mut ch = case.ch.clone();
 	if case.strip_wide {
